@@ -117,6 +117,50 @@ def trace_text(o, limit=60):
     return lines[-limit:]
 
 
+def arbiter(g):
+    """bounded arbiter of a loop-contract group: same extracted text, same function contract, same harness; dimensions capped at 4,
+    loops unwound (no loop contracts).  Its traces are executions of the real code on real (small) inputs."""
+    import copy
+    b = copy.copy(g)
+    b.name = g.name + '.arbiter'
+    b.loops = False
+    b.defines = dict(g.defines)
+    b.defines['VERIF_BOUND'] = 4
+    b.unwind = max(g.unwind or 0, 7)
+    b.timeout = min(g.timeout, 600)
+    return b
+
+
+def triage_loop_failure(pid, r):
+    """A loop-contract group failed.  Loop contracts talk about the loops as they were written; a harmless rewrite (a new loop-carried
+    temporary, pointer iteration) breaks invariant/assigns obligations without breaking the property.  Decide with (1) the bounded
+    arbiter, (2) the native input search.  Returns 'violation' | 'undecided'."""
+    g = r.group
+    b = core.run_group(arbiter(g), trace=False)
+    note = 'bounded arbiter (dimensions <= 4, loops unwound): %s' % b.status
+    if b.status == 'FAILED':
+        r.failed = b.failed
+        r.reason = note + '; it fails on small real inputs'
+        r.arb = b
+        return 'violation'
+    nat = None
+    if g.replay:
+        try:
+            nat = nreplay.run(g.replay, g, {})
+        except Exception as e:
+            nat = {'confirmed': False, 'detail': 'native replay error: %r' % (e,)}
+    if nat and nat.get('confirmed'):
+        r.native_confirmed = nat
+        r.failed = r.failed + [{'name': g.name + '.native_oracle', 'desc': 'native input search on the real code violates the property oracle: %s' % str(nat.get('detail'))[:300],
+                                'file': '', 'line': '', 'function': '', 'status': 'FAILURE', 'cls': 'native'}]
+        return 'violation'
+    if b.status == 'PROVED':
+        r.reason = ('proof not re-established: %s failed under the loop contracts, but the %s and the native input search on the real code%s found no violation'
+                    % (', '.join(o['name'] for o in r.failed[:3]), note, '' if g.replay else ' (none available)'))
+        return 'undecided'
+    return 'violation'      # arbiter itself undecided and nothing speaks for the code: report the failed obligation as the brief prescribes
+
+
 def handle_failure(pid, r, jobs):
     """re-run with --trace, try to obtain a failing input and replay it on the real code"""
     extra = {}
@@ -124,7 +168,7 @@ def handle_failure(pid, r, jobs):
         extra['native'] = r.native_confirmed
         extra['verifier_output'] = r.reason
         return write_replay(pid, r, extra), True
-    tr = core.run_group(r.group, trace=True, workroot=os.path.join(core.RUNDIR, 'trace'))
+    tr = core.run_group(arbiter(r.group) if getattr(r, 'arb', None) else r.group, trace=True, workroot=os.path.join(core.RUNDIR, 'trace'))
     inputs = {}
     vout = []
     for o in tr.obligations:
@@ -225,7 +269,11 @@ def main():
                     unlisted.append(o)
             if unlisted:
                 r.failed = unlisted
-                violations.append(r)
+                if g.loops and not g.bounded and triage_loop_failure(pid, r) == 'undecided':
+                    r.status = 'UNDECIDED'
+                    undecided.append(r)
+                else:
+                    violations.append(r)
     for k, gname, o in knownhits:
         pass
     seen = set()
